@@ -52,20 +52,22 @@ Definition given_bool (k : N) (b : bool) : harg := HGiven (mk_kw k 2 (if b then 
 
 (* hass_services_async_call:
      if return_response given and true and blocking not given:  blocking = True
-     elif return_response not given and the target supports ONLY responses:  return_response = True (blocking = True if not given) *)
-Definition helper (target : srm) (h : list harg) : list harg :=
+     elif return_response not given and hass.services.supports_response(d, s) == SupportsResponse.ONLY:
+          return_response = True (blocking = True if not given)
+   [honly] is the outcome of that `==` test.  It is not the same as the mode HA's async_call validates with `is`: a legacy
+   @service(supports_response="only") function is registered with the *string* "only", which equals the enum member (StrEnum)
+   but is not identical to it — for such a target honly = true while HA treats it like OPTIONAL *)
+Definition helper (honly : bool) (h : list harg) : list harg :=
   match harg_find 3 h with
   | Some rr =>
       if harg_true (Some rr) then
         match harg_find 2 h with None => h ++ [given_bool 2 true] | Some _ => h end
       else h
   | None =>
-      match target with
-      | SrOnly =>
+      if honly then
           let h1 := h ++ [given_bool 3 true] in
           match harg_find 2 h1 with None => h1 ++ [given_bool 2 true] | Some _ => h1 end
-      | _ => h
-      end
+      else h
   end.
 
 Inductive oresult :=
@@ -99,21 +101,24 @@ Definition kw_sort (l : list kwarg) : list kwarg := fold_right kw_insert [] l.
 Definition entity_kw : kwarg := mk_kw 5 5 1.               (* kwargs["entity_id"] = "domain.entity" *)
 Definition param_kw (j : N) : kwarg := mk_kw (30 + j) 4 (100 + Z.of_N j).   (* positional argument j, an int *)
 
+(* what the script gets back: the target's response iff the call was made with return_response *)
+Definition script_ret (r : oresult) : option bool := match r with ODelivered _ rr => Some rr | _ => None end.
+
 (* one outgoing call: [nargs] positional arguments, [nparams] parameters of the target service besides entity_id *)
-Definition outgoing (cfg : deviations) (s : site) (task_ctx : bool) (target : srm) (nargs nparams : N) (kws : list kwarg)
+Definition outgoing (cfg : deviations) (s : site) (task_ctx : bool) (target : srm) (honly : bool) (nargs nparams : N) (kws : list kwarg)
   : oresult :=
   let '(data, h) := split s task_ctx kws in
   match s with
-  | SiteCall => ha_call cfg target (kw_sort data) (helper target h)
+  | SiteCall => ha_call cfg target (kw_sort data) (helper honly h)
   | SiteName =>
       if negb (N.eqb nargs 0) then OTypeError          (* "takes only keyword arguments" *)
-      else ha_call cfg target (kw_sort data) (helper target h)
+      else ha_call cfg target (kw_sort data) (helper honly h)
   | SiteEntity =>
       let data1 := kw_drop 5 data ++ [entity_kw] in
       if N.eqb nargs 1 && N.eqb nparams 1 then
-        ha_call cfg target (kw_sort (kw_drop 30 data1 ++ [param_kw 0])) (if entity_via_helper then helper target h else h)
+        ha_call cfg target (kw_sort (kw_drop 30 data1 ++ [param_kw 0])) (if entity_via_helper then helper honly h else h)
       else if negb (N.eqb nargs 0) then OTypeError     (* "takes no positional arguments" *)
-      else ha_call cfg target (kw_sort data1) (if entity_via_helper then helper target h else h)
+      else ha_call cfg target (kw_sort data1) (if entity_via_helper then helper honly h else h)
   end.
 
 (* ---------- Spec: the data that must arrive = given keywords minus recognised control keywords ---------- *)
